@@ -109,8 +109,13 @@ pub fn run(source: &Path) -> Result<()> {
         let rtx = old_db.begin_read()?;
         let wtx = new_db.begin_write()?;
 
-        let existing: std::collections::HashSet<String> =
-            rtx.list_tables()?.map(|h| h.name().to_string()).collect();
+        // `list_tables` only lists the normal tables: the multimap tables have to be asked for
+        // separately, or `sync-peers-1` is never found and the useful peers are not copied.
+        let existing: std::collections::HashSet<String> = rtx
+            .list_tables()?
+            .map(|h| h.name().to_string())
+            .chain(rtx.list_multimap_tables()?.map(|h| h.name().to_string()))
+            .collect();
 
         migrate_table!(existing, rtx, wtx, new::AUTHORS_TABLE, new::AUTHORS_TABLE);
         migrate_table!(
